@@ -497,3 +497,243 @@ def check_domain_guards(rule, root=None):
             rule.bad("a64|interval|%s|guard" % name, "aarch64 interval %s: %s" % (name, probs[0]), "%s:%d" % (p, b.fn["ln"]))
         else:
             rule.ok("aarch64 interval %s: NaN exactly when its argument leaves the domain (%d paths)" % (name, len(res)), file=p, line=b.fn["ln"])
+
+
+# ---------------------------------------------------------------------------
+# mask logic: compare / not / and / or (the branch-free forms)
+
+
+class Msk:
+    """all-ones where the condition holds, all-zeros elsewhere"""
+
+    def __init__(self, b):
+        self.b = b
+
+
+class Sel:
+    """bitwise OR of (mask AND value) terms"""
+
+    def __init__(self, terms):
+        self.terms = list(terms)
+
+
+NANV = sp.Symbol("NaN")
+
+
+def _atom(kind, a, b=None):
+    return sp.Symbol("%s[%s%s]" % (kind, a, "," + str(b) if b is not None else ""))
+
+
+class MaskEmu(SymEmu):
+    def step(self, x):
+        m, ops = x.mnem, x.ops
+        e = X.effect(x)
+        if e.kind in ("label", "nop"):
+            return
+        if e.kind in ("load", "store") and any(o.kind == "mem" and o.base in ("x1", "x2") for o in ops):
+            return  # the choice byte traffic of the tracing and / or: the protocol rule's business
+        if e.kind in ("jmp", "jcc", "cmp", "call", "load", "store", "ret") or e.unknown:
+            raise Unknown("`%r` is outside the straight-line subset" % x)
+        d = ops[0]
+        if d.kind == "gpr":
+            if m == "mov" and len(ops) == 2 and ops[1].kind == "imm" and "NAN" in ops[1].text:
+                self.g[d.name] = ("lanes", (NANV,))
+            elif m in ("fmov", "umov", "mov") and len(ops) == 2 and ops[1].kind == "vec":
+                self.g[d.name] = ("lanes", tuple(self.lanes(ops[1])[: max(1, d.width // 4)]))
+            else:
+                self.g[d.name] = None
+            return
+        vec = [o for o in ops if o.kind == "vec"]
+        if m in ("fcmeq", "fcmgt", "fcmge", "fcmlt", "fcmle", "cmeq") and len(ops) == 3:
+            a = self.lanes(ops[1])
+            if ops[2].kind == "vec":
+                b = self.lanes(ops[2])
+                same = ops[1].name == ops[2].name and ops[1].lanes() == ops[2].lanes()
+                out = []
+                for p, q in zip(a, b):
+                    if p is None or q is None or isinstance(p, (Msk, Sel)) or isinstance(q, (Msk, Sel)):
+                        out.append(None)
+                    elif m == "fcmeq" and same:
+                        out.append(Msk(_atom("num", p)))
+                    elif m == "fcmgt":
+                        out.append(Msk(_atom("gt", p, q)))
+                    elif m == "fcmge":
+                        out.append(Msk(_atom("ge", p, q)))
+                    elif m == "fcmeq":
+                        out.append(Msk(_atom("eq", p, q)))
+                    else:
+                        out.append(None)
+                self.put(d, out)
+            elif ops[2].kind == "imm" and ops[2].text.lstrip("#") in ("0", "0.0"):
+                kind_ = {"fcmeq": "eq0", "cmeq": "biteq0", "fcmgt": "gt0", "fcmge": "ge0", "fcmlt": "lt0", "fcmle": "le0"}[m]
+                self.put(d, [None if (p is None or isinstance(p, (Msk, Sel))) else Msk(_atom(kind_, p)) for p in a])
+            else:
+                raise Unknown("`%r`" % x)
+            return
+        if m in ("and", "orr", "bic") and len(vec) == 3:
+            a, b = self.lanes(ops[1]), self.lanes(ops[2])
+            out = []
+            for p, q in zip(a, b):
+                out.append(self._bit(m, p, q))
+            self.put(d, out)
+            return
+        if m in ("mvn", "not") and len(vec) == 2:
+            out = []
+            for p in self.lanes(ops[1]):
+                out.append(Msk(sp.Not(p.b)) if isinstance(p, Msk) else None)
+            self.put(d, out)
+            return
+        if m == "fmov" and len(ops) == 2 and ops[1].kind == "gpr":
+            val = self.g.get(ops[1].name)
+            self.put(d, list(val[1]) if val and val[0] == "lanes" else [None])
+            return
+        SymEmu.step(self, x)
+
+    @staticmethod
+    def _bit(op, p, q):
+        if p is None or q is None:
+            return None
+        if isinstance(p, Msk) and isinstance(q, Msk):
+            return Msk(sp.And(p.b, q.b) if op == "and" else (sp.Or(p.b, q.b) if op == "orr" else sp.And(p.b, sp.Not(q.b))))
+        if op == "bic":
+            return None
+        if op == "and":
+            if isinstance(q, Msk) and not isinstance(p, Msk):
+                p, q = q, p
+            if isinstance(p, Msk):
+                if isinstance(q, Sel):
+                    return Sel([(sp.And(p.b, g), v) for g, v in q.terms])
+                if q == ZERO:
+                    return ZERO
+                return Sel([(p.b, q)])
+            if p == ZERO or q == ZERO:
+                return ZERO
+            return None
+        # orr
+        def terms(v):
+            if isinstance(v, Sel):
+                return v.terms
+            if v == ZERO:
+                return []
+            if isinstance(v, Msk):
+                return None
+            return [(sp.true, v)]
+        tp, tq = terms(p), terms(q)
+        if tp is None or tq is None:
+            return None
+        return Sel(tp + tq)
+
+
+def _sel_equal(got, want):
+    """two guarded ORs denote the same value under every consistent truth assignment of their atoms"""
+    import itertools
+
+    def norm(v):
+        if isinstance(v, Sel):
+            return v.terms
+        if isinstance(v, Msk) or v is None:
+            return None
+        if v == ZERO:
+            return []
+        return [(sp.true, v)]
+
+    g, w = norm(got), norm(want)
+    if g is None or w is None:
+        return False, "not a guarded value"
+    atoms = sorted({a for gd, _v in g + w for a in (gd.atoms(sp.Symbol) if gd not in (sp.true, sp.false) else set())}, key=str)
+    for bits in itertools.product((False, True), repeat=len(atoms)):
+        env = dict(zip(atoms, bits))
+        # consistency: gt[a,b] and gt[b,a] exclude each other; a NaN operand compares false
+        ok = True
+        names = {str(a): v for a, v in env.items()}
+        for n_, v in names.items():
+            mm = re.fullmatch(r"gt\[(.+),(.+)\]", n_)
+            if mm and v:
+                if names.get("gt[%s,%s]" % (mm.group(2), mm.group(1))):
+                    ok = False
+                for side in (mm.group(1), mm.group(2)):
+                    if names.get("num[%s]" % side) is False:
+                        ok = False
+        if not ok:
+            continue
+        def active(ts):
+            out = set()
+            for gd, v in ts:
+                val = gd.subs(env) if gd not in (sp.true, sp.false) else gd
+                if val == sp.true:
+                    out.add(sp.simplify(v) if v is not NANV else v)
+            return out
+        ga, wa = active(g), active(w)
+        if ga != wa:
+            return False, "when %s the clause yields %s, the opcode means %s" % (", ".join("%s%s" % ("" if v else "not ", a) for a, v in env.items()), sorted(map(str, ga)) or "0", sorted(map(str, wa)) or "0")
+    return True, ""
+
+
+def check_mask_logic(rule, kind, root=None):
+    """compare / not / and / or are built from compare masks and bitwise selects.  Interpreted on symbolic
+    masks, each output lane must be: compare -> -1 where lhs < rhs, +1 where lhs > rhs, NaN where either is
+    NaN, else 0; not -> 1 where the argument is (float) zero; and -> lhs where lhs == 0 else rhs; or -> lhs
+    where lhs != 0 else rhs"""
+    if kind == "interval":
+        return
+    p = X.path_of(kind)
+    builders = X.load_builders(p, root)
+    need = XC.NEEDED_LANES[kind]
+    one, mone = sp.Integer(1), sp.Integer(-1)
+    for name in ("build_compare", "build_not", "build_and", "build_or"):
+        b = builders.get(name)
+        if b is None:
+            rule.lost("aarch64 %s %s" % (kind, name))
+            continue
+        ins = [x for x in X.flat_ins(b) if x.label is None]
+        outp = AC.out_param(b)
+        inputs = [n_ for (n_, ty) in b.params if ty == "u8" and n_ != outp]
+        scen = [("distinct", {})] + [("out = %s" % n_, {"T:%s" % outp: "T:%s" % n_}) for n_ in inputs]
+        verdict = None
+        for desc, alias in scen:
+            assign = {"T:%s" % inputs[0]: list(L)}
+            if len(inputs) == 2:
+                assign["T:%s" % inputs[1]] = list(R)
+            em = MaskEmu(assign, None)
+            try:
+                for x in ins:
+                    if alias:
+                        x = _copy.deepcopy(x)
+                        for o in x.ops:
+                            if o.kind == "vec" and o.name in alias:
+                                o.name = alias[o.name]
+                    em.step(x)
+            except Unknown as e_:
+                verdict = ("skip", str(e_))
+                break
+            got = em.v.get(alias.get("T:%s" % outp, "T:%s" % outp)) or [None] * 4
+            for l in need:
+                # the deciding lane: lane l for the sample-wise evaluators, lane 0 (the value) for gradients
+                k = 0 if kind == "grad_slice" else l
+                a, bq = L[k], (R[k] if len(inputs) == 2 else None)
+                if name == "build_compare":
+                    if kind == "grad_slice" and l > 0:
+                        want = ZERO
+                    else:
+                        want = Sel([(_atom("gt", bq, a), mone), (_atom("gt", a, bq), one), (sp.Not(sp.And(_atom("num", a), _atom("num", bq))), NANV)])
+                elif name == "build_not":
+                    want = ZERO if (kind == "grad_slice" and l > 0) else Sel([(_atom("eq0", a), one)])
+                elif name == "build_and":
+                    want = Sel([(_atom("eq0", a), L[l]), (sp.Not(_atom("eq0", a)), R[l])])
+                else:
+                    want = Sel([(sp.Not(_atom("eq0", a)), L[l]), (_atom("eq0", a), R[l])])
+                ok, why = _sel_equal(got[l], want)
+                if got[l] is None or isinstance(got[l], Msk):
+                    verdict = ("skip", "lane %d of the output is built by instructions outside the modelled subset (%s)" % (l, desc))
+                    break
+                if not ok:
+                    verdict = ("bad", "lane %d (%s): %s" % (l, desc, why))
+                    break
+            if verdict:
+                break
+        if verdict is None:
+            rule.ok("aarch64 %s %s: mask logic gives the opcode's value in every lane" % (kind, name), file=p, line=b.fn["ln"])
+        elif verdict[0] == "bad":
+            rule.bad("a64|%s|%s|mask" % (kind, name), "aarch64 %s %s: %s" % (kind, name, verdict[1]), "%s:%d" % (p, b.fn["ln"]))
+        else:
+            rule.skip("aarch64 %s %s" % (kind, name), verdict[1])
